@@ -55,12 +55,16 @@ func (s *Service) onWebSocketRequest(w http.ResponseWriter, r *http.Request) {
 	}
 }
 
+func isWebSocketUpgrade(r *http.Request) bool {
+	return r.Method == "GET" &&
+		strings.ToLower(r.Header.Get("Connection")) == "upgrade" &&
+		strings.ToLower(r.Header.Get("Upgrade")) == "websocket"
+}
+
 // streams 请求处理(websocket connect,flv,mu38,ts)
 func (s *Service) onStreamsRequest(w http.ResponseWriter, r *http.Request) {
 	// 检测 websocket 请求
-	if r.Method == "GET" &&
-		strings.ToLower(r.Header.Get("Connection")) == "upgrade" &&
-		strings.ToLower(r.Header.Get("Upgrade")) == "websocket" {
+	if isWebSocketUpgrade(r) {
 		s.onWebSocketRequest(w, r)
 		return
 	}
@@ -108,7 +112,9 @@ func permissionInterceptor(w http.ResponseWriter, r *http.Request) bool {
 	u := auth.Get(userName)
 
 	streamPath, ext := extractStreamPathAndExt(r.URL.Path)
-	if ext == ".ts" { // 分段的请求路径是 {流路径}/{序号}.ts，权限按流路径检查
+	// 分段的请求路径是 {流路径}/{序号}.ts，权限按流路径检查；
+	// WebSocket 接入（ws-rtsp、WSP、ws-flv）绑定的是去掉后缀的完整路径，必须按该路径检查
+	if ext == ".ts" && !isWebSocketUpgrade(r) {
 		if i := strings.LastIndex(streamPath, "/"); i > 0 {
 			streamPath = streamPath[:i]
 		}
